@@ -6,7 +6,8 @@
 From Coq Require Import ZArith NArith List Bool String Lia.
 From Coq Require Import Floats.SpecFloat.
 From DL Require Import Lib.Bytes Lib.F64 Lua.Syntax Lua.Sem Model.StringLit Model.NumberLit
-  Model.Evaluator Lua.EvalSpec Lua.EvalSpec2 Proof.SemFacts Proof.EvaluatorStore Proof.EvaluatorF64.
+  Model.Evaluator Lua.EvalSpec Lua.EvalSpec2 Proof.SemFacts Proof.EvaluatorStore Proof.EvaluatorF64
+  Proof.EvaluatorCoercion.
 Import ListNotations.
 Open Scope N_scope.
 Local Notation llen := List.length.
@@ -186,9 +187,7 @@ End Safe.
 Section Inv.
 Variable d : dialect.
 
-(** agreement of the two string->number coercions (discharged in [EvaluatorCoercion]) *)
-Hypothesis coercion_agrees : forall s x y,
-  str2num s = Some x -> number_coercion (LString s) = LNumber y -> y = x /\ valid x.
+(** the agreement of the two string->number coercions is [EvaluatorCoercion.coercion_agrees] *)
 
 Lemma num_coerce_ok s0 s la a x y :
   lv_ok s0 s la a -> number_coercion la = LNumber x -> tonum a = Some y -> x = y /\ valid x.
